@@ -179,6 +179,7 @@ func checkC12(c *Ctx) Meta {
 	c.Rule("C12-B", "writes only inside the transaction: with the edge db.Update->closure removed, no function containing a bucket write is reachable from an exported function of keystore/wallet", 15)
 	c.Rule("C12-C", "memory after commit: no store to a durable-image field inside an Update closure or its callees; in the operation every such store (or call leading to one) lies behind the success edge of the Update result test", 8)
 	c.Rule("C12-D", "errors reach the closure's return: every error from a bucket write or keystore helper inside an Update closure (and callees) is tested and, on the non-nil branch, a provably non-nil error is returned without rejoining normal flow", 60)
+	c.Rule("C12-F", "outside the closures as well, every error returned by a transaction (db.Update/db.View) or by a keystore/db helper to a function of the keystore or wallet package is looked at on every path and, on its non-nil branch, fails the operation with a non-nil error (no log-and-continue after a failed step of an operation)", 50)
 	c.Rule("C12-E", "transaction wrapper: in db.Update a closure error leads to Rollback and is returned; otherwise the result of Commit is returned", 3)
 
 	ksExports := exportedFuncs(c, pkgKeystore)
@@ -406,6 +407,44 @@ func checkC12(c *Ctx) Meta {
 		},
 		strict: func(fn *ssa.Function, call *ssa.Call) bool { return true },
 	})
+
+	// ---- F: outside the closures too: every error of a wallet step (transaction, helper, manager
+	// method) in the keystore and wallet packages is looked at on every path and fails the operation
+	{
+		var scopeF []*ssa.Function
+		inTx := map[*ssa.Function]bool{}
+		for _, f := range inTxFns {
+			inTx[f] = true
+		}
+		for fn := range c.AllFuncs {
+			p := pkgOf(fn)
+			if (p == pkgKeystore || p == repoMod+"/poc/wallet") && len(fn.Blocks) > 0 && !inTx[fn] {
+				scopeF = append(scopeF, fn)
+			}
+		}
+		sort.Slice(scopeF, func(i, j int) bool { return FuncName(scopeF[i]) < FuncName(scopeF[j]) })
+		errflowAllowNoErrorResult = true
+		defer func() { errflowAllowNoErrorResult = false }()
+		runErrflow(c, errflowCfg{
+			except: map[string]string{
+				"(*poc/wallet/keystore.KeystoreManagerForPoC).ChangePubPassphrase:(*poc/wallet/keystore.AddrManager).safelyCheckPassword#1": "inverted check: the new public passphrase must NOT be accepted as the private one, so a nil result is the failure and is turned into ErrIllegalNewPubPass",
+			},
+			rule:  "C12-F",
+			scope: scopeF,
+			classK: func(fn *ssa.Function, call *ssa.Call) bool {
+				id := calleeID(call)
+				if id == idUpdate || id == idView {
+					return true
+				}
+				if f := call.Call.StaticCallee(); f != nil {
+					p := pkgOf(f)
+					return p == pkgKeystore || p == pkgDB
+				}
+				return false
+			},
+			strict: func(fn *ssa.Function, call *ssa.Call) bool { return true },
+		})
+	}
 
 	// ---- E: the wrapper
 	checkUpdateWrapper(c, "C12-E")
